@@ -277,6 +277,12 @@ func inspectRealm(ctx context.Context, drv migrate.Driver) *schema.Realm {
 	return r
 }
 
+// inspectErr inspects again to learn why inspectRealm failed (reported with the violation).
+func inspectErr(ctx context.Context, drv migrate.Driver) error {
+	_, err := drv.InspectRealm(ctx, nil)
+	return err
+}
+
 // Walk is the shared scenario of C01, C03, C05 and C17: the same tape gives the same
 // walk; prop selects the oracle that is evaluated.
 func Walk(prop string) simkit.Scenario {
@@ -346,6 +352,9 @@ func walk(r *simkit.Run, prop string) {
 				keep = append(keep, ix)
 			}
 			tb.Idx = keep
+			if t.Chance("lower-case-keywords", 1, 3) {
+				tb.LowerKW = true
+			}
 			legacy.Tables = append(legacy.Tables, tb)
 		}
 		if valid(legacy) == nil {
@@ -363,6 +372,10 @@ func walk(r *simkit.Run, prop string) {
 				desired = legacy
 				r.Probe("legacy-start")
 				for _, tb := range legacy.Tables {
+					if tb.LowerKW {
+						r.Probe("legacy-lower-case-keywords")
+						tb.LowerKW = false
+					}
 					for _, ix := range tb.Idx {
 						if ix.Inline {
 							r.Probe("legacy-inline-unique-constraint")
@@ -373,6 +386,15 @@ func walk(r *simkit.Run, prop string) {
 				}
 				r.Logf("legacy start: %s", legacy.Describe())
 				r.Sample("start from a database created by foreign DDL: %s", legacy.Describe())
+				// C03 speaks about any database, not only about those Atlas has planned: the exports of
+				// the database as the foreign DDL left it are checked before anything is applied to it.
+				if prop == "C03" {
+					r.Nontrivial()
+					checkExports(ctx, r, w, dir, 0, "foreign-ddl")
+					if r.Failed() {
+						return
+					}
+				}
 			}
 		}
 	}
@@ -422,7 +444,7 @@ func walk(r *simkit.Run, prop string) {
 		}
 		cur := inspectRealm(ctx, drv0)
 		if cur == nil {
-			r.Fail(prop, "inspect", "inspect-failed", "step %d: InspectRealm failed on a state reached by the walk", step)
+			r.Fail(prop, "inspect", "inspect-failed", "step %d: InspectRealm failed on a state reached by the walk: %v", step, inspectErr(ctx, drv0))
 			return
 		}
 		want := desired.ToAtlas()
@@ -751,7 +773,7 @@ func checkConverged(ctx context.Context, r *simkit.Run, w *world, obs *sql.DB, d
 	drv, _ := sqlite.Open(w.db)
 	cur := inspectRealm(ctx, drv)
 	if cur == nil {
-		r.Fail(prop, "inspect", "inspect-failed", "step %d: InspectRealm failed after a successful apply", step)
+		r.Fail(prop, "inspect", "inspect-failed", "step %d: InspectRealm failed after a successful apply: %v", step, inspectErr(ctx, drv))
 		return
 	}
 	want := desired.ToAtlas()
@@ -1000,6 +1022,7 @@ func checkExports(ctx context.Context, r *simkit.Run, w *world, dir string, step
 	if err != nil {
 		simkit.Harnessf("catalog: %v", err)
 	}
+	exp, live = unifyConstraints(exp, live)
 	if d := DiffCatalogs(exp, live); d != "" {
 		r.Fail(prop, "sql-export", "sql-export-catalog-differs/"+reached, "step %d: the catalog of the database recreated from the SQL export differs from the original (live = recreated, want = original):\n%s", step, d)
 	}
@@ -1229,6 +1252,7 @@ func checkCLIExports(ctx context.Context, r *simkit.Run, w *world, dir, url stri
 	if err != nil {
 		simkit.Harnessf("catalog: %v", err)
 	}
+	exp, live = unifyConstraints(exp, live)
 	if d := DiffCatalogs(exp, live); d != "" {
 		r.Fail(prop, "sql-export", "cli-sql-export-catalog-differs/"+reached, "step %d: the database recreated from `schema inspect --format '{{ sql . }}'` differs from the original (live = recreated, want = original):\n%s", step, d)
 	}
@@ -1272,4 +1296,50 @@ func unifyUnique(cat map[string]string) map[string]string {
 		out[n] = strings.Join(lines, "\n")
 	}
 	return out
+}
+
+// unifyConstraints applies one equivalence between a recreated database and its original: a
+// UNIQUE constraint of the original (which SQLite backs by an automatic index that cannot be
+// created by name) may come back as a plain unique index over the same columns. Only constraint
+// lines of the original and their counterpart are rewritten; named indexes stay compared by name.
+func unifyConstraints(recreated, original map[string]string) (map[string]string, map[string]string) {
+	parts := func(l string) string {
+		k := strings.Index(l, " parts=")
+		if k < 0 {
+			return ""
+		}
+		rest := l[k:]
+		if d := strings.Index(rest, " def="); d >= 0 {
+			rest = rest[:d]
+		}
+		return rest
+	}
+	outR, outO := map[string]string{}, map[string]string{}
+	for n, c := range recreated {
+		outR[n] = c
+	}
+	for n, o := range original {
+		outO[n] = o
+		rc, ok := recreated[n]
+		if !ok || !strings.Contains(o, "index <unique-constraint> ") {
+			continue
+		}
+		ol, rl := strings.Split(o, "\n"), strings.Split(rc, "\n")
+		for i, l := range ol {
+			if !strings.HasPrefix(l, "index <unique-constraint> ") {
+				continue
+			}
+			for j, m := range rl {
+				if strings.HasPrefix(m, "index ") && !strings.HasPrefix(m, "index <unique") && strings.Contains(m, " unique=1 ") && strings.HasSuffix(m, " where=") && parts(m) == parts(l) {
+					ol[i] = "index <unique> unique=1" + parts(l)
+					rl[j] = ol[i]
+					break
+				}
+			}
+		}
+		sort.Strings(ol)
+		sort.Strings(rl)
+		outO[n], outR[n] = strings.Join(ol, "\n"), strings.Join(rl, "\n")
+	}
+	return outR, outO
 }
